@@ -681,6 +681,85 @@ theorem reprA_iterRem (p : Nat → Bool) {s : Store} {as L : List Nat} (h : Repr
   rw [hf] at hr
   exact hr
 
+/-! ### reverse iteration with removal: the ring read backwards is a ring (prev and next swapped) -/
+
+/-- the same cells with the two pointer fields swapped -/
+def flip (s : Store) : Store := { s with prev := s.next, next := s.prev }
+
+theorem flip_flip (s : Store) : flip (flip s) = s := rfl
+
+theorem discard_flip (k : Nat) (s : Store) : discard k (flip s) = flip (discard k s) := by
+  unfold discard
+  show (match s.map k with | none => flip s | some a => _) = _
+  cases s.map k <;> rfl
+
+/-- walking `prev` with removal is walking `next` with removal on the flipped ring -/
+theorem reversedRem_flip (p : Nat → Bool) : ∀ (f : Nat) (s : Store) (a : Nat),
+    reversedRem p f s a = ((iterRem p f (flip s) a).1, flip (iterRem p f (flip s) a).2)
+  | 0, _, _ => rfl
+  | f + 1, s, a => by
+    unfold reversedRem iterRem
+    by_cases h0 : a = 0
+    · simp [h0]; rfl
+    · simp only [h0, ↓reduceIte]
+      have hkey : (flip s).key = s.key := rfl
+      by_cases hp : p (s.key a) = true
+      · simp only [hkey, hp, ↓reduceIte]
+        rw [reversedRem_flip p f (discard (s.key a) s) ((discard (s.key a) s).prev a), discard_flip]
+        rfl
+      · simp only [hkey, hp, Bool.false_eq_true, ↓reduceIte]
+        rw [reversedRem_flip p f s (s.prev a)]
+        rfl
+
+theorem linked_snoc (t : Store) : ∀ (m : List Nat) (y x : Nat), Linked t (m ++ [y]) → t.next y = x → t.prev x = y →
+    Linked t (m ++ [y] ++ [x])
+  | [], _, _, _, h1, h2 => ⟨h1, h2, trivial⟩
+  | [_], _, _, h, h1, h2 => by
+    obtain ⟨ha, hb, _⟩ := h
+    exact ⟨ha, hb, h1, h2, trivial⟩
+  | a :: b :: m, y, x, h, h1, h2 => by
+    obtain ⟨ha, hb, hr⟩ := h
+    exact ⟨ha, hb, linked_snoc t (b :: m) y x hr h1 h2⟩
+
+theorem linked_reverse (s : Store) : ∀ (l : List Nat), Linked s l → Linked (flip s) l.reverse
+  | [], _ => trivial
+  | [_], _ => trivial
+  | x :: y :: r, h => by
+    obtain ⟨h1, h2, hr⟩ := h
+    have ih := linked_reverse s (y :: r) hr
+    simp only [List.reverse_cons] at ih ⊢
+    exact linked_snoc (flip s) r.reverse y x ih h2 h1
+
+/-- the flipped ring denotes the reversed list -/
+theorem reprA_flip {s : Store} {as L : List Nat} (h : ReprA s as L) : ReprA (flip s) as.reverse L.reverse where
+  linked := by
+    have := linked_reverse s (0 :: as ++ [0]) h.linked
+    simpa using this
+  keys := by rw [List.map_reverse]; exact congrArg List.reverse h.keys
+  nodup := (List.reverse_perm as).nodup_iff.mpr h.nodup
+  nz := fun hm => h.nz (List.mem_reverse.mp hm)
+  bound := fun a ha => h.bound a (List.mem_reverse.mp ha)
+  len := by rw [List.length_reverse]; exact h.len
+  knodup := (List.reverse_perm L).nodup_iff.mpr h.knodup
+  mapIn := fun a ha => h.mapIn a (List.mem_reverse.mp ha)
+  mapOut := fun k hk => h.mapOut k (fun hm => hk (List.mem_reverse.mpr hm))
+
+theorem repr_flip {s : Store} {L : List Nat} (h : Repr s L) : Repr (flip s) L.reverse :=
+  let ⟨_, ha⟩ := h
+  ⟨_, reprA_flip ha⟩
+
+/-- REVERSE iteration with removal of the visited elements, under `Repr`: it visits exactly `L` backwards AND leaves a store
+    that again satisfies `Repr`, denoting `L` without the removed elements -/
+theorem reprA_reversedRem (p : Nat → Bool) {s : Store} {as L : List Nat} (h : ReprA s as L) :
+    (reversedRem p s.fresh s (s.prev 0)).1 = L.reverse ∧
+    Repr (reversedRem p s.fresh s (s.prev 0)).2 (L.filter (fun k => !p k)) := by
+  rw [reversedRem_flip]
+  have hf := reprA_iterRem p (reprA_flip h)
+  refine ⟨hf.1, ?_⟩
+  have := repr_flip hf.2
+  rw [List.filter_reverse, List.reverse_reverse] at this
+  exact this
+
 /-- C17 audit #2: the observers read off the pointers agree with the list -/
 theorem reprA_observers {s : Store} {as L : List Nat} (h : ReprA s as L) :
     ptrFirst s = L.head? ∧ ptrLast s = L.getLast? ∧ (∀ k, ptrMem k s = true ↔ k ∈ L) ∧ len s = L.length := by
@@ -747,6 +826,9 @@ theorem repr_runP_from : ∀ (ops : List POp) (s : Store) (L : List Nat), Repr s
     | iterRm ks =>
       simp only [applyP, absP]
       exact (reprA_iterRem (fun k => decide (k ∈ ks)) h).2
+    | riterRm ks =>
+      simp only [applyP, absP]
+      exact (reprA_reversedRem (fun k => decide (k ∈ ks)) h).2
 
 /-- `Repr` gives the hypotheses of the iteration theorem (with the fuel the driver uses) -/
 theorem iterRem_of_reprA (p : Nat → Bool) {s : Store} {as L : List Nat} (h : ReprA s as L) :
